@@ -231,11 +231,34 @@ def contains_cls(op, cls) -> bool:
     return False
 
 
+def _classes(op):
+    sk = A.skeleton(op, A.Encoder())
+
+    def go(n):
+        return [n[0], [go(k) for k in n[3]]] if n[3] else n[0]
+
+    return go(sk)
+
+
+def _noids(sk):
+    return [sk[0], sk[2], [_noids(k) for k in sk[3]]]
+
+
 def normal_form_report(red):
     """C07's oracle on the implementation: scan the reduced operator for what should not remain."""
     j = A.J()
     core, rules = j['core'], j['rules']
-    rep = {'reducible_pairs': [], 'homotheties': 0, 'identities': 0, 'homothety_side_ok': True}
+    rep = {'reducible_pairs': [], 'homotheties': 0, 'identities': 0, 'homothety_side_ok': True, 'idempotent': True}
+    # a normal form is a fixed point: reducing again must not find anything left to rewrite
+    try:
+        again = red.reduce()
+        rep['idempotent'] = _noids(A.skeleton(again, A.Encoder())) == _noids(A.skeleton(red, A.Encoder()))
+        if not rep['idempotent']:
+            rep['again'] = _classes(again)
+            rep['first'] = _classes(red)
+    except Exception as ex:
+        rep['idempotent'] = False
+        rep['again'] = f'reduce() of the reduced operator raised {type(ex).__name__}'
     if not isinstance(red, core.CompositionOperator):
         return rep
     ops = red.operands
